@@ -49,7 +49,8 @@ Print Assumptions C18_each_indexed_key_once.
    - the records of dst0 below W0 are exactly the records that were there before, and no record straddles W0:
      the earlier file's old part is unchanged, GC only appended to it;
    - every file still has at most one record per offset and nothing buffered, and the bucket again satisfies the
-     GC precondition (files in offset order ...), so another pass may follow. *)
+     GC precondition (files in offset order ...), so another pass may follow; D is the destination the model's loop
+     ends with. *)
 Theorem C18_pass_layout : forall (cf : cfg) (hf : bytes -> N) (K : list bytes),
   (forall k1 k2, In k1 K -> In k2 K -> hf k1 = hf k2 -> k1 = k2) -> 0 < c_splitcap cf ->
   forall b m begin_ end_,
@@ -64,7 +65,8 @@ Theorem C18_pass_layout : forall (cf : cfg) (hf : bytes -> N) (K : list bytes),
     (forall e, rend e <= W0 -> (In e (k_disk (chunk_at b' dst0)) <-> In e (k_disk (chunk_at b dst0)))) /\
     (forall e, In e (k_disk (chunk_at b' dst0)) -> rend e <= W0 \/ W0 <= fst e) /\
     (forall c, (c < b_head b)%nat -> gchunk (chunk_at b' c)) /\
-    GPre cf hf K b'.
+    GPre cf hf K b' /\
+    D = gc_dst (fold_left (gc_file cf hf begin_) (seq begin_ (S end_ - begin_)) (mkGC (begin_gc_writing (before_bucket cf b false) dst0 begin_) dst0 gc0)).
 Proof. exact gc_pass_reclaims. Qed.
 Print Assumptions C18_pass_layout.
 
